@@ -139,10 +139,10 @@ def run(ctx):
     chosen = [[x, x] for x in sorted(S)] + hs[:quota] + [[x, x] for x in sorted(D)] + hd[:quota]
     events = []
 
-    def execute(label, loc, trace):
+    def execute(label, loc, trace, loc_arg=None):
         single = label in S
         kind, delete = ("single", 0) if single else (D[label][0], D[label][1])
-        argv = (S[label][1] if single else D[label][2])(loc)
+        argv = (S[label][1] if single else D[label][2])(loc_arg or loc)
         log = ctx.path("strace_%d.log" % os.getpid() + "_" + hashlib.md5((label + loc).encode()).hexdigest()[:8])
         cmd = (["strace", "-f", "-e", "trace=openat,ftruncate,unlink,unlinkat", "-o", log] if trace else []) + argv
         p = vlib.sh(cmd, timeout=600, cwd=ctx.rundir)
@@ -180,10 +180,34 @@ def run(ctx):
         for label in h:
             rc, evs = execute(label, shared, True)
             events += evs
-        rc, _ = execute(h[-1], fresh, False)
+        # the fresh location is spelled in different ways (the spelling of a path is not an input either): directories that do
+        # not exist yet below directories that do not exist yet, a trailing slash; for single files a bare relative name, ./name,
+        # a name with a blank and a non-ASCII letter
+        shape = hi % 4
+        fresh_real, fresh_arg = fresh, None
+        if h[-1] in D:
+            if shape == 1:
+                fresh_real = os.path.join(fresh, "deep", "er")
+            elif shape == 2:
+                fresh_arg = fresh + "/"
+            elif shape == 3:
+                fresh_real = os.path.join(fresh, "one more")
+                fresh_arg = os.path.relpath(fresh_real, ctx.rundir) + "/"
+        else:
+            if shape == 1:
+                fresh_arg = os.path.basename(fresh)
+            elif shape == 2:
+                fresh_arg = "./" + os.path.basename(fresh)
+            elif shape == 3:
+                fresh_real = fresh + " \u00fc x"
+                fresh_arg = os.path.basename(fresh_real)
+        rc, _ = execute(h[-1], fresh_real, False, fresh_arg)
         for name, (path, nz) in results(h[-1], shared).items():
-            fpath = path.replace(shared, fresh)
-            events.append({"ev": "eq", "what": "history %s: %s" % ("+".join(h), name), "a": dig(path, nz), "b": dig(fpath, nz)})
+            fpath = path.replace(shared, fresh_real)
+            events.append({"ev": "eq", "what": "history %s: %s (fresh location spelled in way %d)" % ("+".join(h), name, shape),
+                           "a": dig(path, nz), "b": dig(fpath, nz)})
+        if fresh_real != fresh and not fresh_real.startswith(fresh + os.sep) and os.path.exists(fresh_real):
+            os.remove(fresh_real)
         for p in (shared, fresh):
             if os.path.isdir(p):
                 shutil.rmtree(p)
